@@ -162,6 +162,15 @@ CHECKS["C12"] = dict(
    note=IMP_NOTE + " The specification's import graph counts the module an import statement names (for `from m import x`: m.x if that is a module, else m), not the package __init__ files Python executes on the way. Level 3 is exercised only with stdlib modules free of extension-module imports (README warning).",
    design_ref="DESIGN.md section 6 C12, section 11")
 
+CHECKS["C11"] = dict(
+   technique="Coq: decision model of entries + validator with an independently written inductive well-formedness predicate (accept <-> wf, proved), entry theorems over arbitrary definition lists, composition with the result-generation model (no entry => no contribution), refutation for excluded lambdas / static methods; differential runs of the real parser / FileAnalyser; metamorphic end-to-end scenarios (ignored = removed, declared = body performing exactly the declaration) in the target and behind an import",
+   text=("C11_ignored_or_excluded_never_in_results + C11_no_entry_never_contributes (for every file and every environment: an ignored / excluded function or class has no IR entry, so it is no result key and no call expands to it), "
+         "C11_declaration_accepted_iff_well_formed (validator <-> inductive wf predicate; the only other outcome is the fatal diagnostic), C11_malformed_declaration_is_fatal, C11_declared_function_has_exactly_the_declaration; "
+         "REFUTED: C11_excluded_lambda_and_static_method_refuted (KF_C11_1). The model is compared with the real parse_rattr_results_from_annotation on every key x a pool of 21 argument values at every position of the nested shapes (a disagreement on accept / reject is reported with that decorator as failing input), "
+         "with the real FileAnalyser on random annotated files, and the property itself is checked on real end-to-end runs against reference programs. The TypeError / AttributeError crashes on malformed arguments were a genuine defect: repaired by fix commit 66cc389."),
+   note=COMMON_NOTE + "Oracles: --exclude regular expressions (re.fullmatch), rattr's identifier pattern (real is_name per string). How a declared entry is inlined into callers is the result-generation model's (C03); nested functions and methods other than static methods are outside (rattr does not analyse them).",
+   design_ref="DESIGN.md section 6 C11, section 11")
+
 NOT_YET = {}
 
 def main():
